@@ -491,7 +491,17 @@ func explore(o *options, prog *interp.Program, hs []*hstate, tier int) {
 				h.mu.Lock()
 				wantSample := len(h.Samples) < sampleK
 				h.mu.Unlock()
+				tp0 := time.Now()
 				res := w.RunPath(h.H.Fn, t.prefix, lim, wantSample, tier)
+				if os.Getenv("SYMGO_PATHLOG") != "" {
+					var ch []string
+					for _, d := range res.Trace {
+						if d.K == 'n' {
+							ch = append(ch, fmt.Sprint(d.V))
+						}
+					}
+					fmt.Fprintf(os.Stderr, "PATH %s %.2fs instrs=%d decisions=%d status=%s choices=%s\n", h.H.Name, time.Since(tp0).Seconds(), res.Instrs, res.Decisions, res.Status, strings.Join(ch, ","))
+				}
 
 				h.mu.Lock()
 				h.Paths++
